@@ -39,6 +39,11 @@ func (e *envT) setup() error {
 	e.small = []*bundleT{
 		e.bundle("b0", 0, -1), e.bundle("b1", 3, -1), e.bundle("b2", 9, 1), e.bundle("b3", 20, -1), e.bundle("b4", 1, 6),
 	}
+	{
+		x, y := e.mintCRL(4, false), e.mintCRL(4, false)
+		pd, qd := e.mintCRL(2, true), e.mintCRL(2, true)
+		e.shared = []*bundleT{e.bundleFrom("d0", x, pd), e.bundleFrom("d1", x, qd), e.bundleFrom("d2", y, pd), e.bundleFrom("d3", x, nil)}
+	}
 	e.alt = []*bundleT{e.bundle("a1", 1, -1), e.bundle("a200", 200, -1)}
 	// two different bundles whose cache files have the same length (ECDSA signatures vary in length: retry)
 	e0 := e.bundle("e0", 2, -1)
@@ -530,6 +535,44 @@ func (g *gen) hookSchedules() {
 			sc = append(sc, sev{Kind: "R", Idx: 2, URL: u0})
 		}
 		g.hookCase("hook-equal-length", []wspec{{u0, a}, {u0, b}, {u0, a}}, sc)
+	}
+	// bundles that share parts: same base / re-issued delta, same delta / other base, delta dropped or
+	// added, identical (idempotent). Set A, Get, Set A', Get sequentially; then overlapping writers
+	// (sampled interleavings) with a read after each return and at the end
+	{
+		d := e.shared
+		pairs := [][2]*bundleT{{d[0], d[1]}, {d[1], d[0]}, {d[0], d[2]}, {d[2], d[0]}, {d[0], d[3]}, {d[3], d[0]}, {d[0], d[0]}}
+		for _, pr := range pairs {
+			var sc []sev
+			for j := 0; j < 4; j++ {
+				sc = append(sc, sev{Kind: "W", Idx: 0})
+			}
+			sc = append(sc, sev{Kind: "R", Idx: 0, URL: u0})
+			for j := 0; j < 4; j++ {
+				sc = append(sc, sev{Kind: "W", Idx: 1})
+			}
+			sc = append(sc, sev{Kind: "R", Idx: 1, URL: u0})
+			for j := 0; j < 4; j++ {
+				sc = append(sc, sev{Kind: "W", Idx: 2})
+			}
+			sc = append(sc, sev{Kind: "R", Idx: 2, URL: u0})
+			g.hookCase("hook-shared-parts", []wspec{{u0, pr[0]}, {u0, pr[1]}, {u0, pr[0]}}, sc)
+			for k := 0; k < 4; k++ {
+				r := rng.Fork(uint64(g.id))
+				ws := full[r.Intn(len(full))]
+				// reads after the 4th step of each writer and at the end
+				var pos []int
+				cnt := [2]int{}
+				for j, x := range ws {
+					cnt[x]++
+					if cnt[x] == 4 {
+						pos = append(pos, j+1)
+					}
+				}
+				pos = append(pos, len(ws))
+				g.hookCase("hook-shared-parts", []wspec{{u0, pr[0]}, {u0, pr[1]}}, insertReads(ws, pos, []string{u0, u0, u0}))
+			}
+		}
 	}
 	// URL variants: an upper-case twin, a twin with a leading blank and the empty URL are different
 	// keys: what is stored for one is never read for another (odd URL written first / last / only)
